@@ -13,7 +13,7 @@ LEVEL = "model_checking"
 OPTIONS = {"quick": {"max_paths": 20000, "unit_budget_s": 600}, "thorough": {"max_paths": 100000, "unit_budget_s": 1800, "validate_every": 3}}
 DEPTH = {"quick": 2, "thorough": 4}
 BOUNDS = {
-    "quick": {"inductive_step": "pre-states: 4 states x <= 2 outstanding operations (each search or not; on the server also ids that are in the search registry but no longer outstanding) with symbolic distinct ids <= 60, symbolic counter <= 61; one call of each of the 24 client / 20 server operations (18/14 plain + 6/6 carrying a paged-results control with a symbolic cookie) with symbolic id, result code 0..80, drain amount -4..40 or None", "bmc": "every sequence of 2 operations from a fresh client and a fresh server; every sequence of 3 over the send/receive/drain operations (several messages pending, symbolic drain amounts -4..40)"},
+    "quick": {"inductive_step": "pre-states: 4 states x <= 2 outstanding operations (each search or not; on the server also ids that are in the search registry but no longer outstanding) with symbolic distinct ids <= 60, symbolic counter <= 61; one call of each of the 24 client / 20 server operations (18/14 plain + 6/6 carrying a paged-results control with a symbolic cookie) with symbolic id, result code 0..80, drain amount -4..40 or None", "bmc": "every sequence of 2 operations from a fresh client and a fresh server; every sequence of 3 over the send/receive/drain operations (several messages pending, symbolic drain amounts -4..40); 64 sequences with a 10 KiB message pending and three drains of threshold + 0..2 octets (thresholds 0, 1024, 4096, 6000)"},
     "thorough": {"inductive_step": "same", "bmc": "every sequence of 2 and 3 operations; every sequence of 4 over the send/receive/drain operations"},
 }
 OUTSIDE = ["more than 2 simultaneously outstanding operations in the inductive step", "ids above 60 (multi-octet INTEGER encodings are C01/C07's subject)", "a response whose kind does not match the operation its id belongs to (not specified by the property)"]
@@ -37,7 +37,16 @@ def units(tier):
             if sum(1 for o in seq if o.startswith("drain")) < 1 or seq[0].startswith("drain"):
                 continue
             us.append({"name": f"drainseq_{side}_" + "+".join(seq), "shape": {"kind": "bmc", "side": side, "ops": list(seq)}})
+    # a message of more than ten thousand octets pending, drained in pieces whose sizes sit on
+    # and around thresholds (0, 1 KiB, 4 KiB, 6000; each + 0..2 symbolic), then a drain of the
+    # rest: every piece must be the next part of the stream, nothing lost or repeated
+    for a, b, c in itertools.product(BIG_DRAINS, repeat=3):
+        ops = ["extended", "extended_big", "extended", f"drainK{a}", f"drainK{b}", f"drainK{c}", "extended", "drain_none"]
+        us.append({"name": f"bigdrain_client_{a}+{b}+{c}", "shape": {"kind": "bmc", "side": "client", "ops": ops}})
     return us
+
+
+BIG_DRAINS = (0, 1024, 4096, 6000)
 
 
 def body(ctx, shape):
